@@ -23,6 +23,9 @@ def run(tier, seed):
                      ("relay.tspt.os", {"MIMALLOC_TARGET_SEGMENTS_PER_THREAD": "2", "MIMALLOC_DISALLOW_ARENA_ALLOC": "1"}), ("relay.os", noarena)):
         oruns.append({"args": ["--workload", "relay", "--rounds", "3" if q else "6"], "env": dict(env), "tag": tag, "build": "rel"})
         oruns.append({"args": ["--workload", "mt", "--rounds", "3" if q else "6"], "env": dict(env), "tag": tag.replace("relay", "mt"), "build": "rel" if q else "dbg"})
+    for tag, env in (("subproc", {}), ("subproc.rof", rof)):      # two sub-processes: abandoned memory is only touched within its own
+        oruns.append({"args": ["--workload", "subproc", "--rounds", "3" if q else "6"], "env": dict(env), "tag": tag, "build": "rel"})
+        oruns.append({"args": ["--workload", "subproc", "--rounds", "3"], "env": dict(env), "tag": tag, "build": "dbg"})
     V, ocov = osfam.run_os("C09", tier, seed, oruns, builds=["rel", "dbg"], own_guards={"AllReleased", "DirtyAllReleased", "NoCreepMapped", "QuiesceNoLive", "NoOverlap", "ContentsKept.gen", "ContentsKept.bytes",
                            "DestructiveAvoidsLive", "LiveAccessible", "Invariant.Inv"}, crash_decisive=True, group=2, finish=False, outname="C09os")
     return concfam.run_conc("C09", tier, seed, jobs, GUARDS, step_guards=concfam.STEP_GUARDS, V=V,
